@@ -444,6 +444,20 @@ pub fn extract_elref(s: &str) -> Result<(ElRef, &str)> {
     )))
 }
 
+/// The element a `use` refers to through its `href`, if that is something svgdx
+/// resolves: `^`, or `#` followed by the id of an element in this document. An id
+/// is any XML Name here (`a.b`, `ns:b`), not only what a relspec could spell.
+/// Anything else (`sprites.svg#icon`, `#svgView(..)`) is an IRI to pass through.
+pub fn href_elref(href: &str) -> Option<ElRef> {
+    if let Ok((elref, "")) = extract_elref(href) {
+        return Some(elref);
+    }
+    let id = href.strip_prefix(ELREF_ID_PREFIX)?;
+    let name_start = |c: char| c.is_alphabetic() || c == '_' || c == ':';
+    let name_char = |c: char| c.is_alphanumeric() || matches!(c, '_' | ':' | '-' | '.');
+    (id.starts_with(name_start) && id.chars().all(name_char)).then(|| ElRef::Id(id.to_owned()))
+}
+
 #[cfg(test)]
 mod test {
     use super::*;
